@@ -1396,7 +1396,11 @@ class SQLModel:
         view_name = "order_rows_" + str(temp_id_source[0])
         temp_id_source[0] = temp_id_source[0] + 1
         terms = None
-        if not using_was_None:
+        if (not using_was_None) or (
+            order_node.sources[0].node_name == "TableDescription"
+        ):
+            # SELECT * straight from a database table would also return columns
+            # the table description does not declare
             terms = {ci: None for ci in subusing}
         suffix: List[str] = []
         if len(order_node.order_columns) > 0:
